@@ -369,6 +369,7 @@ def run_history(spec, want_state=False):
     trace_steps = set(run.get("count_lines", []))
     for i, op in enumerate(spec["ops"]):
         SEAM.reset_op()
+        dn0 = SEAM.devnull_opens
         tracer = None
         fired = []
         for f in faults.get(i, []):
@@ -414,7 +415,10 @@ def run_history(spec, want_state=False):
                     events.append(("solution-changed", sid))
                     env.sol_dig[sid] = d
         rec = {"i": i, "out": out, "fired": fired, "deps": SEAM.dep_count, "events": events,
-               "stdout_ok": sys.stdout is devnull}
+               "stdout_ok": sys.stdout is devnull, "devnull_opens": SEAM.devnull_opens - dn0}
+        if want_state == "steps":
+            from . import discover
+            rec["state"] = discover.dirty()
         if tracer is not None:
             rec["lines"] = tracer.n
         log.append(rec)
@@ -425,6 +429,8 @@ def run_history(spec, want_state=False):
     if want_state:
         from . import discover
         tail["state"] = discover.dirty()
+        if want_state == "steps":
+            tail["step_states"] = [r.pop("state") for r in log]
     if env.scratch:
         try:
             os.rmdir(env.scratch)
